@@ -72,7 +72,7 @@ impl Interpreter {
 
                 self.state.clone()
             }
-            ScriptBit::Coinbase(_) => todo!(),
+            ScriptBit::Coinbase(_) => return Err(InterpreterError::InvalidStackOperation("coinbase data cannot be executed")),
         })
     }
 
